@@ -73,7 +73,7 @@ Proof.
 Qed.
 
 Lemma loop_complete d ws (Hw : Forall (fun w => 1 <= w) ws) (Hne : ws <> []) :
-  forall rd fuel pb s acc, length rd < fuel -> Forall (row_ok ws) (map fst rd) -> delims_ok d rd -> greedy rd ->
+  forall rd fuel pb s acc, length rd < fuel -> Forall (row_ok ws) (map fst rd) -> delims_ok d rd -> (d = LdAny -> greedy rd) ->
   eff pb s = render rd -> (pb <> None -> rd <> []) ->
   loop fuel d ws pb s acc = Some (acc ++ map fst rd, true).
 Proof.
@@ -92,14 +92,15 @@ Proof.
     + inversion Hd as [| |? ? ? ? Hx Hd']; subst. cbn [map fst] in Hrs. inversion Hrs as [|? ? Hr2 _]; subst.
       pose proof (concat_row_nonempty ws r2 Hr2 Hw Hne) as Hc.
       cbn [render]. destruct (concat r2) as [|c body] eqn:Ec; [congruence|]. cbn [app].
-      destruct Hg as [Hg1 Hg2]. rewrite Ec in Hg1.
-      destruct (skip_delim_more d x c (body ++ x2 ++ render rd') Hx (fun _ E => Hg1 E)) as [pb' [s2 [-> Heff]]].
+      assert (G : d = LdAny -> x = [CR] -> c <> LF).
+      { intros Ed E. destruct (Hg Ed) as [Hg1 _]. rewrite Ec in Hg1. exact (Hg1 E). }
+      destruct (skip_delim_more d x c (body ++ x2 ++ render rd') Hx G) as [pb' [s2 [-> Heff]]].
       rewrite (IH fuel pb' s2 (acc ++ [r])).
       * rewrite <- app_assoc. reflexivity.
       * cbn [length] in *. lia.
       * exact Hrs.
       * exact Hd'.
-      * exact Hg2.
+      * intros Ed. exact (proj2 (Hg Ed)).
       * rewrite Heff. cbn [render]. rewrite Ec. reflexivity.
       * intros _. discriminate.
 Qed.
@@ -113,7 +114,7 @@ Qed.
 
 (* every well-formed file is read back complete and aligned, without an error *)
 Theorem fixed_complete_lemma d ws rd : Forall (fun w => 1 <= w) ws -> ws <> [] ->
-  Forall (row_ok ws) (map fst rd) -> delims_ok d rd -> greedy rd ->
+  Forall (row_ok ws) (map fst rd) -> delims_ok d rd -> (d = LdAny -> greedy rd) ->
   fixed_rows d ws (render rd) = Some (map fst rd, true).
 Proof.
   intros Hw Hne Hr Hd Hg. unfold fixed_rows.
